@@ -105,10 +105,14 @@ theorem pbase_atom (a : Nat) (r : List Tok) : PBase 1 (.atom a :: r) (.atom a) r
 theorem pbase_paren {n ts e r} (h : PTop n ts e (.rp :: r)) : PBase (n + 1) (.lp :: ts) e r := by
   intro f hf; obtain ⟨f', rfl, hf'⟩ := succ_of_le hf; simp [parseBase, h f' hf']
 
-theorem pbase_tuple {n1 n2 ts e r es r'} (h1 : PTop n1 ts e (.comma :: r)) (h2 : PArgs n2 r es r') :
-    PBase (n1 + n2 + 1) (.lp :: ts) (.tuple e es) r' := by
+theorem pbase_tuple {n1 n2 ts e r es r'} (h1 : PTop n1 ts e (.comma :: r)) (hr : notRp r)
+    (h2 : PArgs n2 r es r') : PBase (n1 + n2 + 1) (.lp :: ts) (.tuple e es) r' := by
   intro f hf; obtain ⟨f', rfl, hf'⟩ := succ_of_le hf
-  simp [parseBase, h1 f' (by omega), h2 f' (by omega)]
+  simp only [parseBase, h1 f' (by omega)]
+  cases r with
+  | nil => simp [h2 f' (by omega)]
+  | cons t r =>
+    cases t <;> first | exact absurd rfl (hr r) | simp [h2 f' (by omega)]
 
 theorem pbase_block {n ts b r} (h : PStmts n ts b r) : PBase (n + 1) (.lb :: ts) (.block b) r := by
   intro f hf; obtain ⟨f', rfl, hf'⟩ := succ_of_le hf; simp [parseBase, h f' hf']
@@ -748,7 +752,8 @@ theorem main : (e : Expr) → MainConcl e
     rw [hrg] at hloop
     simp only [Expr.lvl] at hloop ⊢
     simp only [printE, List.cons_append, List.append_assoc, List.singleton_append]
-    have hb := pbase_tuple (main_top hme (stops_comma (printArgs es ++ .rp :: rest))) (hma rest)
+    have hb := pbase_tuple (main_top hme (stops_comma (printArgs es ++ .rp :: rest)))
+      (printArgs_notRp es (.rp :: rest)) (hma rest)
     exact (plevel6 (Nat.le_refl 6) hb hloop).mono (by simp only [B]; omega)
   | .block b => by
     have hmb := mainBody b
